@@ -15,7 +15,7 @@ from . import c08
 
 PROP = "C09"
 TOK = re.compile(r"'(?:[^'\\]|\\.|'')*'|\"(?:[^\"\\]|\\.)*\"|`[^`]*`|\d+\.\d+|\w+|<=>|<=|>=|<>|!=|<<|>>|&&|\|\||==|[^\w\s]", re.S)
-SEPS = [" ", "  ", "\n", "\t", " \n ", " /* c */ ", "/**/", " -- c\n", " # c\n ", "\n\n", " /* SELECT ; */ ", "/** c **/", "/***/", " /* c **/ ", " /*** c ***/ ", "/****/"]
+SEPS = [" ", "  ", "\n", "\t", " \n ", " /* c */ ", "/**/", " -- c\n", " # c\n ", "\n\n", " /* SELECT ; */ ", "/** c **/", "/***/", " /* c **/ ", " /*** c ***/ ", "/****/", "\u3000", " \u3000 ", "\r\n", " \r\n\t"]
 DML = ("SELECT", "INSERT", "UPDATE", "DELETE")
 AGG = {"SUM", "COUNT", "MAX", "MIN", "AVG"}
 
